@@ -7,6 +7,8 @@ use crate::model::*;
 
 #[derive(Clone, Debug, PartialEq, Eq)]
 pub enum Enc {
+    /// handed to Game::make_move as a value through the API, no text in between (any promotion field, also Pawn / King)
+    Api,
     Uci,
     San(San),
     /// raw text handed to the decoder named by `san` (B-RANDOM garbage, noise)
@@ -243,11 +245,36 @@ pub fn san_p(t: &str) -> Option<San> {
     })
 }
 
+/// move text that also covers promotion fields outside q/r/b/n (p, k)
+pub fn mv_any(m: Mv) -> String {
+    let mut s = sq_name(m.from);
+    s.push_str(&sq_name(m.to));
+    if let Some(k) = m.promo {
+        s.push(kind_letter_lower(k));
+    }
+    s
+}
+pub fn mv_any_p(t: &str) -> Option<Mv> {
+    if let Some(m) = Mv::parse_uci(t) {
+        return Some(m);
+    }
+    if t.len() == 5 && t.is_ascii() {
+        let k = match t.as_bytes()[4] {
+            b'p' => Kind::P,
+            b'k' => Kind::K,
+            _ => return None,
+        };
+        return Some(Mv::new(parse_sq(&t[0..2])?, parse_sq(&t[2..4])?, Some(k)));
+    }
+    None
+}
+
 fn cact_s(a: &CAct) -> String {
     match a {
         CAct::Move { mv, enc: e } => {
             let m = mv.map(|m| m.uci()).unwrap_or("-".into());
             match e {
+                Enc::Api => format!("act=move mv={} enc=api", mv.map(|x| mv_any(x)).unwrap_or("-".into())),
                 Enc::Uci => format!("act=move mv={} enc=uci", m),
                 Enc::San(s) => format!("act=move mv={} enc=san san={}", m, san_s(s)),
                 Enc::Raw { san, text } => {
@@ -372,9 +399,10 @@ impl Step {
                 "move" => {
                     let mv = match g("mv")? {
                         "-" => None,
-                        s => Some(Mv::parse_uci(s)?),
+                        s => Some(mv_any_p(s)?),
                     };
                     let e = match g("enc")? {
+                        "api" => Enc::Api,
                         "uci" => Enc::Uci,
                         "san" => Enc::San(san_p(g("san")?)?),
                         "raw" => Enc::Raw { san: g("dec")? == "san", text: gs("text")? },
